@@ -5,4 +5,11 @@ cd "$(dirname "$0")"
 export CARGO_NET_OFFLINE=true
 mkdir -p build evidence
 python3-vt -m mirsym.dump sync async-std tokio >/dev/null
+for fl in sync async-std tokio; do
+  python3-vt -c "from mirsym.replay import build_runner; build_runner('$fl')"
+done
+# model self-validation: concrete scenarios through the symbolic engine and the native build must agree
+python3-vt -m mirsym.validate sync 60 >/dev/null
+python3-vt -m mirsym.validate async-std 30 >/dev/null
+python3-vt -m mirsym.validate tokio 30 >/dev/null
 echo "setup ok"
